@@ -34,7 +34,11 @@ FAMILY = ["C=CO", "C(=C)O", "C(O)=C", "OC=C", "C(=CC)O", "CC=CO", "OC(=C)C", "C=
           "C=C(O)O", "C=C(O)OC", "OC1=CCCCC1", "C1(O)=CCCCC1", "CC(O)(O)C", "C(O)(O)C", "OC(C)(O)C", "OC1(O)CCCC1", "C1(O)(O)CCCC1", "OCC(O)O",
           "OC(O)O", "C(O)(O)(O)O", "OC(O)(O)C", "COC(C)(C)O", "OC(C)(C)OC", "CC(C)(O)O[Li]", "CC(C)(O)O[Na]", "C=C(C)O[Na]", "C=C(O)C(O)(O)C",
           "NC(O)(O)C", "CCO.C=CO", "CC(O)(O)C.C=CO", "O", "CCO", "CC(=O)C", "c1ccccc1O", "OC(O)=O", "OC(O)c1ccccc1", "OC(O)C=C", "C=C(O)C(=O)O",
-          "C[C@H](O)C=CO", "OC(=CC)CC", "FC(O)(O)F", "ClC(Cl)(Cl)C(O)O", "OC(O)C(O)O", "[NH3+]CC(O)O", "C=C(O)C[N+](C)(C)C"]
+          "C[C@H](O)C=CO", "OC(=CC)CC", "FC(O)(O)F", "ClC(Cl)(Cl)C(O)O", "OC(O)C(O)O", "[NH3+]CC(O)O", "C=C(O)C[N+](C)(C)C",
+          # hemiacetals (the default functional-group tree reports them as 'hemiacetal', a child of 'hemiketal': they are left alone)
+          "CC(O)OC", "OC1CCCCO1", "OC1OC(CO)C(O)C(O)C1O", "CCOC(C)O", "OC1CCCO1",
+          # gem-diols whose first hydroxyl is written in brackets (the hydrogen is then an explicit count on the atom)
+          "CC([OH])(O)C", "CC([18OH])(O)C", "[H]OC(C)(C)O", "CC([OH:1])(O)C", "[OH]C(O)C", "CC(O)([18OH])C"]
 
 
 class Spy:
@@ -120,7 +124,16 @@ def comp(s):
     return {k: v for k, v in c.items() if v}
 
 
+REFQ = []
+
+
 def classify(s, q0, raised, out):
+    if not REFQ:
+        try:
+            from fgutils import FGQuery
+            REFQ.append(FGQuery())
+        except Exception:
+            pass
     from rdkit import Chem
     groups = [g for g in (q0 or []) if g[0] in ("enol", "hemiketal")]
     m = Chem.MolFromSmiles(s)
@@ -132,7 +145,14 @@ def classify(s, q0, raised, out):
         if name == "enol" and any(a.GetFormalCharge() != 0 or a.GetTotalNumHs() == 0 for a in os_):
             return "charged-or-substituted-enol-oxygen"
         if name == "hemiketal" and any(a.GetTotalNumHs() == 0 or a.GetFormalCharge() != 0 for a in os_):
-            return "alkoxy-hemiketal"
+            # the known finding is about groups that the library's DEFAULT functional-group tree calls hemiketal; when only the
+            # implementation's own query says so (hemiacetals are a child class of hemiketal there), it is another defect
+            try:
+                ref = REFQ[0].get(s) if REFQ else None
+            except Exception:
+                ref = None
+            if ref is None or any(g[0] == "hemiketal" for g in ref):
+                return "alkoxy-hemiketal"
         if name == "enol":
             return "enol-index-adjacency"
     return "standardisation-changed-molecule" if not raised else "standardisation-raised"
